@@ -259,10 +259,10 @@ fn format_attribute(
     if let Some((last, main)) = attr.arguments.split_last() {
         output.push('(');
         for expr in main {
-            format_expression(expr, output, context)?;
+            format_list_expression(expr, output, context)?;
             output.push_str(", ");
         }
-        format_expression(last, output, context)?;
+        format_list_expression(last, output, context)?;
         output.push(')');
     }
 
@@ -293,7 +293,7 @@ fn format_function_param(
 
     if let Some(default_expr) = &param.default_expr {
         output.push_str(" = ");
-        format_expression(default_expr, output, context)?;
+        format_list_expression(default_expr, output, context)?;
     }
 
     Ok(())
@@ -599,7 +599,7 @@ fn format_expression_or_type(
 ) -> Result<(), FormatError> {
     match value {
         ast::ExpressionOrType::Expression(expr) | ast::ExpressionOrType::Either(expr, _) => {
-            format_expression(expr, output, context)
+            format_list_expression(expr, output, context)
         }
         ast::ExpressionOrType::Type(ty) => format_type_id(ty, output, context),
     }
@@ -877,6 +877,16 @@ fn format_expression(
     context: &mut FormatContext,
 ) -> Result<(), FormatError> {
     format_subexpression(expr, u32::MAX, OperatorSide::Middle, output, context)
+}
+
+/// Format an expression that is one element of a comma separated list (initializer, default argument,
+/// attribute argument, template argument, enum value): a comma expression needs parenthesis there
+fn format_list_expression(
+    expr: &ast::Expression,
+    output: &mut String,
+    context: &mut FormatContext,
+) -> Result<(), FormatError> {
+    format_subexpression(expr, 17, OperatorSide::CommaList, output, context)
 }
 
 enum OperatorSide {
@@ -1207,7 +1217,7 @@ fn format_initializer_inner(
     context: &mut FormatContext,
 ) -> Result<(), FormatError> {
     match init {
-        ast::Initializer::Expression(expr) => format_expression(expr, output, context)?,
+        ast::Initializer::Expression(expr) => format_list_expression(expr, output, context)?,
         ast::Initializer::Aggregate(exprs) => {
             output.push_str("{ ");
             let (head, tail) = exprs.split_first().unwrap();
@@ -1314,7 +1324,7 @@ fn format_enum(
 
         if let Some(expr) = &value.value {
             output.push_str(" = ");
-            format_expression(expr, output, context)?;
+            format_list_expression(expr, output, context)?;
         }
 
         output.push(',');
